@@ -296,6 +296,13 @@ fn summarize_component(
     summaries: &mut [FunctionSummary<'_>],
     budget: &mut SummaryBudget,
 ) -> Result<(), BudgetExceeded> {
+    // A call into a cycle of the call graph can recurse until the stack overflows, which
+    // is a run-time error like any other: such a call is never known not to fail.
+    let recursive = component.len() > 1
+        || component
+            .iter()
+            .any(|&function| facts.function_direct(function).direct_callees.contains(&function));
+
     let mut changed = true;
     while changed {
         changed = false;
@@ -303,7 +310,8 @@ fn summarize_component(
         for &function in component {
             let function_idx = function.0 as usize;
             let body_class = summaries[function_idx].body_class;
-            let mut transitive_class = body_class;
+            let mut transitive_class =
+                if recursive { body_class.join(ExprClass::PureMayTrap) } else { body_class };
 
             for &callee in &facts.function_direct(function).direct_callees {
                 if callee == function {
